@@ -34,7 +34,9 @@ CLASSES = {
     'NaryExpr': dict(module='deferred', bases=[], attrs={}),
     'Bits': dict(module='field', bases=['Field'], attrs={
         'mask': 'int', 'bit_count': 'int', 'iam_first': 'bool', 'iam_last': 'bool',
-        'shift': 'int', 'I': 'ref:Int', 'members': 'list'}, optional=['bit_count']),
+        'shift': 'int', 'I': 'ref:Int', 'members': 'list',
+        'ghost_w': 'int'},      # ghost: the declared width (bit_count is deleted by _compile)
+        optional=['bit_count']),
     'Ref': dict(module='field', bases=['Field'], attrs={
         'prototype': 'dyn', 'embed': 'bool', 'position': 'int', 'proto_class': 'cls'}),
     'Em': dict(module='field', bases=['Field'], attrs={}),
